@@ -38,6 +38,23 @@ func firstRead(it *iterRec, path string) (string, bool) {
 	return "", false
 }
 
+// hasTop: one of the sets contains all the others
+func hasTop(sets []GTIDSet) bool {
+	for i := range sets {
+		ok := true
+		for j := range sets {
+			if !sets[j].SubsetOf(sets[i]) {
+				ok = false
+				break
+			}
+		}
+		if ok {
+			return true
+		}
+	}
+	return false
+}
+
 func isChain(sets []GTIDSet) bool {
 	for i := range sets {
 		for j := i + 1; j < len(sets); j++ {
@@ -207,7 +224,11 @@ func (o *orC01) onSQL(ev *SQLEvent) {
 		}
 	}
 	if len(sets) >= 2 && !isChain(sets) {
-		o.report("splitbrain_promoted", "promotion-despite-incomparable-frozen-sets", fmt.Sprintf("%s promoted %s although frozen members %v hold incomparable transaction sets: %v", ev.Src, H.Name, fr, desc))
+		kind, sig := "splitbrain_promoted", "promotion-despite-incomparable-frozen-sets"
+		if hasTop(sets) {
+			kind, sig = "splitbrain_contained", "incomparable-members-below-a-member-containing-all:promoted"
+		}
+		o.report(kind, sig, fmt.Sprintf("%s promoted %s although frozen members %v hold incomparable transaction sets: %v", ev.Src, H.Name, fr, desc))
 	}
 	if o.lastProm == nil {
 		o.lastProm = map[string]uint64{}
@@ -250,6 +271,7 @@ func (o *orC01) onIterLeave(it *iterRec) {
 		}
 	}
 	var sets []GTIDSet
+	var descr []string
 	for _, h := range fr {
 		if !read[h] {
 			return
@@ -268,6 +290,7 @@ func (o *orC01) onIterLeave(it *iterRec) {
 			held = x
 		}
 		sets = append(sets, held)
+		descr = append(descr, h+"="+held.String())
 	}
 	if isChain(sets) {
 		return
@@ -281,6 +304,11 @@ func (o *orC01) onIterLeave(it *iterRec) {
 		return // already reported at the promotion
 	}
 	if !s.fileExists(d.host, "emerge") {
-		m.violate("C01", "splitbrain_no_emerge", "splitbrain-abort-without-emergency-file", fmt.Sprintf("%s froze %v with incomparable sets and collected all positions but wrote no emergency file", it.inc, fr))
+		kind, sig := "splitbrain_no_emerge", "splitbrain-abort-without-emergency-file"
+		if hasTop(sets) {
+			// not a chain, but one member holds everything the others hold
+			kind, sig = "splitbrain_contained", "incomparable-members-below-a-member-containing-all:no-emergency-file"
+		}
+		m.violate("C01", kind, sig, fmt.Sprintf("%s froze %v with incomparable sets and collected all positions but wrote no emergency file: %v", it.inc, fr, descr))
 	}
 }
